@@ -111,7 +111,10 @@ def render(net, rng, notation="mix", breakage=None):
         pdoms = [vars_[p]["dom"] for p in V["parents"]]
         combos = list(itertools.product(*[range(len(d)) for d in pdoms]))
         rows = {c: list(V["cpt"][i]) for i, c in enumerate(combos)}
-        mode = notation if notation != "mix" else rng.choice(["table", "entries", "default+entries", "table+entries"])
+        override = notation == "override"
+        mode = notation if notation not in ("mix", "override") else rng.choice(["table", "entries", "default+entries", "table+entries"])
+        if override:
+            mode = rng.choice(["default+entries", "table+entries"])
         if not V["parents"]:
             mode = "table"
         blk = {"default": [], "table": [], "entries": []}
@@ -129,6 +132,17 @@ def render(net, rng, notation="mix", breakage=None):
                 if mode == "table+entries" and rng.random() < 0.6:
                     continue
                 blk["entries"].append({"cond": list(c), "probs": rows[c]})
+            if override and blk["entries"]:
+                # the rows that have their own entry carry OTHER (valid) numbers in the table / default: entries win,
+                # whatever the order of the lines in the block
+                if mode == "table+entries":
+                    for e in blk["entries"]:
+                        ci = combos.index(tuple(e["cond"]))
+                        alt = list(reversed(rows[tuple(e["cond"])]))
+                        for i in range(k):
+                            blk["table"][i * len(combos) + ci] = alt[i]
+                elif all(rows[c] != blk["default"] or any(e["cond"] == list(c) for e in blk["entries"]) for c in combos):
+                    blk["default"] = list(reversed(blk["default"]))
         # ---- breakage (applied to the blocks, so text and spec input stay the same thing)
         if breakage and v == broken_var:
             if breakage == "row_sum_high":
@@ -163,6 +177,8 @@ def render(net, rng, notation="mix", breakage=None):
         for e in blk["entries"]:
             cond = ", ".join(pdoms[j][e["cond"][j]] for j in range(len(e["cond"])))
             body.append(f"  ({cond}) " + ", ".join(fl(x) for x in e["probs"]) + ";")
+        if override:
+            rng.shuffle(body)
         lines += [header] + body + ["}"]
         blocks[v] = blk
     spec_vars = [{"dom": len(vars_[v]["dom"]), "parents": [pos[p] + 1 for p in vars_[v]["parents"]]} for v in order]
@@ -182,7 +198,7 @@ def main(tier, seed):
     nets = [gen_net(rng, i) for i in range(8 if quick else 60)] + fixed_nets()
     items = []
     for net in nets:
-        variants = [("table", None), ("entries", None), ("mix", None), ("mix", None)]
+        variants = [("table", None), ("entries", None), ("mix", None), ("mix", None), ("override", None), ("override", None)]
         variants += [("mix", b) for b in ("row_sum_high", "row_sum_low", "missing_row", "duplicate_entry", "short_table",
                                           "within_tolerance")]
         for vi, (notation, breakage) in enumerate(variants):
